@@ -73,8 +73,10 @@ func (c *c02Conn) BeginTx(ctx context.Context, opts driver.TxOptions) (driver.Tx
 	c.w.openTx++
 	return &c02Tx{c.w}, nil
 }
-func (c *c02Conn) Begin() (driver.Tx, error) { return c.BeginTx(context.Background(), driver.TxOptions{}) }
-func (c *c02Conn) Close() error                { return nil }
+func (c *c02Conn) Begin() (driver.Tx, error) {
+	return c.BeginTx(context.Background(), driver.TxOptions{})
+}
+func (c *c02Conn) Close() error { return nil }
 func (c *c02Conn) ExecContext(ctx context.Context, q string, args []driver.NamedValue) (driver.Result, error) {
 	if err := c.w.db("WRITE"); err != nil {
 		return nil, err
@@ -138,10 +140,10 @@ func (s *c02Stmt) Query(args []driver.Value) (driver.Rows, error) {
 // stub serializer: what the bytes are is C08's subject
 type c02Parser struct{}
 
-func (c02Parser) GetName() string                                  { return "json" }
-func (c02Parser) GetDefaultContent() []byte                        { return []byte("{}") }
-func (c02Parser) Encode(l *undo.BranchUndoLog) ([]byte, error)     { return []byte("undo"), nil }
-func (c02Parser) Decode(b []byte) (*undo.BranchUndoLog, error)     { return &undo.BranchUndoLog{}, nil }
+func (c02Parser) GetName() string                              { return "json" }
+func (c02Parser) GetDefaultContent() []byte                    { return []byte("{}") }
+func (c02Parser) Encode(l *undo.BranchUndoLog) ([]byte, error) { return []byte("undo"), nil }
+func (c02Parser) Decode(b []byte) (*undo.BranchUndoLog, error) { return &undo.BranchUndoLog{}, nil }
 
 func c02Setup() (*c02World, *ATConn, context.Context) {
 	w := &c02World{failAt: vrt.Choice("failAt", 7) - 1, regOutcome: vrt.Choice("register", 4), branchID: vrt.Int64("branchId"), reportFails: c02ReportFails[vrt.Choice("reportFails", vrt.Param("reportfailvalues", 3))]}
@@ -199,8 +201,47 @@ func c02Business(c *ATConn, ctx context.Context) (types.ExecResult, error) {
 	img := &types.RecordImage{TableName: "t", SQLType: types.SQLTypeUpdate, Rows: []types.RowImage{{Columns: []types.ColumnImage{{ColumnName: "id", Value: vrt.Int64("row.id")}}}}}
 	c.txCtx.RoundImages.AppendBeofreImage(img)
 	c.txCtx.RoundImages.AppendAfterImage(img)
-	c.txCtx.LockKeys["t:1"] = struct{}{}
+	// lock keys as the executors record them: two statements on rows of one table with
+	// arbitrary (string) key values, one on another table
+	for _, k := range c02LockKeys() {
+		c.txCtx.LockKeys[k] = struct{}{}
+	}
 	return types.NewResult(types.WithResult(r)), nil
+}
+
+var c02Keys []string
+
+// c02LockKeys: "t:<k1>", "t:<k2>", "u:7" with k1, k2 symbolic printable 2-byte strings
+// (no ';' or ',': those separate keys on the wire), k1 != k2.
+func c02LockKeys() []string {
+	if c02Keys == nil {
+		k1, k2 := vrt.String("lock.k1", 2), vrt.String("lock.k2", 2)
+		for _, k := range []string{k1, k2} {
+			for i := 0; i < len(k); i++ {
+				vrt.Assume(k[i]-0x21 < 0x5e && k[i] != ';' && k[i] != ',')
+			}
+		}
+		vrt.Assume(k1 != k2)
+		c02Keys = []string{"t:" + k1, "t:" + k2, "u:7"}
+	}
+	return c02Keys
+}
+
+// c02Carries: the registration's lock-key text names every recorded key (keys are ';'-separated).
+func c02Carries(sent string) bool {
+	parts := strings.Split(sent, ";")
+	for _, k := range c02LockKeys() {
+		found := false
+		for _, p := range parts {
+			if p == k {
+				found = true
+			}
+		}
+		if !found {
+			return false
+		}
+	}
+	return true
 }
 
 func (w *c02World) idx(kind string, onlyOK bool) int {
@@ -240,7 +281,7 @@ func c02Check(w *c02World, err error, panicked bool, tag string) {
 		vrt.Assert(iReg >= 0 && w.ev[iReg].ok && iReg < iUndo, "c02/undo-log-only-after-registration/"+tag)
 	}
 	if iReg >= 0 {
-		vrt.Assert(w.lockKeySeen == "t:1;", "c02/registration-carries-lock-keys/"+tag)
+		vrt.Assert(c02Carries(w.lockKeySeen), "c02/registration-carries-every-lock-key/"+tag)
 	}
 	failure := w.faulted || w.regOutcome != 0
 	if !failure {
@@ -314,4 +355,33 @@ func VerifC02Explicit() {
 		err = tx.Commit()
 	}()
 	c02Check(w, err, panicked, "explicit")
+}
+
+// VerifC03Register (C03, first sentence, last hop): whatever keys the
+// statements of a local transaction recorded - several rows of one table,
+// string key values of any printable shape, several tables - the registration
+// sent before the local commit names every one of them.
+func VerifC03Register() {
+	w, c, ctx := c02Setup()
+	if w.failAt >= 0 || w.regOutcome != 0 || w.reportFails != 0 {
+		return // the fault cases are C02's
+	}
+	var err error
+	func() {
+		defer func() { recover() }()
+		var tx driver.Tx
+		tx, err = c.BeginTx(ctx, driver.TxOptions{})
+		if err != nil {
+			return
+		}
+		if _, err = c.createNewTxOnExecIfNeed(ctx, func() (types.ExecResult, error) { return c02Business(c, ctx) }); err != nil {
+			tx.Rollback()
+			return
+		}
+		err = tx.Commit()
+	}()
+	vrt.Reach("c03/registered")
+	iReg, iCommit := w.idx("REGISTER", true), w.idx("COMMIT", true)
+	vrt.Assert(err == nil && iReg >= 0 && iCommit > iReg, "c03/registration-precedes-the-local-commit")
+	vrt.Assert(c02Carries(w.lockKeySeen), "c03/registration-names-every-recorded-key")
 }
